@@ -25,7 +25,7 @@ func init() {
 		ID: "C04",
 		Meta: func(tier string) fw.Meta {
 			return fw.Meta{
-				Flavours: []string{"plain", "cover"},
+				Flavours: []string{"plain", "cover", "386"},
 				Blocks:   32,
 				Procs:    16,
 				Rule: "case = (key type and comparator: int natural, int reversed via NewFunc, string natural, string case-folding via NewFunc; universe size; history of Set/Delete/Clear through the map and through a copy of it). " +
@@ -789,7 +789,7 @@ func runC04(c *fw.Ctx) {
 		}
 		switch (i + c.Block) % 5 {
 		case 4:
-			wide := func(a, b int) int { return 2 * (a - b) }
+			wide := func(a, b int) int { return clipInt(2 * (int64(a) - int64(b))) }
 			c04start(c, "omap.NewFunc[int,int](difference comparator)", omap.NewFunc[int, int](wide), wide, true, func(u int) int { return 3 * u }, uni, i)
 		case 0:
 			off := []int{0, uni / 2, uni}[r.IntN(3)] // keys all positive, centred on zero, or all negative
